@@ -93,15 +93,15 @@ theorem step_spec (o : Ops Val) (s : State Val) (c : Call) (h : cache_inv o s) :
       have hun : uncached o (.transpose axes) = o.compute (.transpose axes) := by simp only [uncached, if_neg hid]
       have := viaDeque_spec o s.tr (.transpose axes) htr
       rw [hst, hun]; exact ⟨⟨this.1, hrs, hcsr, hcsc⟩, this.2⟩
-  | reshape sh =>
-    by_cases hid : sh = o.shape
-    · have hst : step o s (.reshape sh) = (s, .ok o.self) := by simp only [step, if_pos hid]
-      have hun : uncached o (.reshape sh) = .ok o.self := by simp only [uncached, if_pos hid]
+  | reshape sh lit =>
+    by_cases hid : lit = true ∧ sh = o.shape
+    · have hst : step o s (.reshape sh lit) = (s, .ok o.self) := by simp only [step, if_pos hid]
+      have hun : uncached o (.reshape sh lit) = .ok o.self := by simp only [uncached, if_pos hid]
       rw [hst, hun]; exact ⟨⟨htr, hrs, hcsr, hcsc⟩, rfl⟩
-    · have hst : step o s (.reshape sh) =
+    · have hst : step o s (.reshape sh lit) =
           ({ s with rs := (viaDeque o s.rs (.reshape sh)).1 }, (viaDeque o s.rs (.reshape sh)).2) := by
         simp only [step, if_neg hid]
-      have hun : uncached o (.reshape sh) = o.compute (.reshape sh) := by simp only [uncached, if_neg hid]
+      have hun : uncached o (.reshape sh lit) = o.compute (.reshape sh) := by simp only [uncached, if_neg hid]
       have := viaDeque_spec o s.rs (.reshape sh) hrs
       rw [hst, hun]; exact ⟨⟨htr, this.1, hcsr, hcsc⟩, this.2⟩
   | csr =>
@@ -235,10 +235,12 @@ def exOps : Ops Key :=
     csrToCsc := fun _ => .csc, cscToCsr := fun _ => .csr }
 def exCalls : List Call :=
   [.transpose [1, 0, 2], .transpose [2, 1, 0], .transpose [0, 2, 1], .transpose [1, 2, 0],
-   .transpose [1, 0, 2], .csc, .csr, .reshape [6, 4], .reshape [6, 4], .transpose [0, 1, 2]]
+   .transpose [1, 0, 2], .csc, .csr, .reshape [6, 4] true, .reshape [6, 4] false, .transpose [0, 1, 2],
+   .reshape [2, 3, 4] true, .reshape [2, 3, 4] false]
 example : outputs exOps exCalls = exCalls.map (uncached exOps)
     ∧ (run exOps {} exCalls).1.tr.map (·.1) = [.transpose [0, 2, 1], .transpose [1, 2, 0], .transpose [1, 0, 2]]
-    ∧ ((observe exOps {} exCalls).map (·.hit)) = [false, false, false, false, false, false, true, false, true, false] := by
+    ∧ ((observe exOps {} exCalls).map (·.hit)) = [false, false, false, false, false, false, true, false, true, false, false, false]
+    ∧ ((observe exOps {} exCalls).map (·.self)) = [false, false, false, false, false, false, false, false, false, true, true, false] := by
   decide
 
 /-! ### Part 2 — storage -/
